@@ -350,6 +350,8 @@ def h_commit_lock(at: int, storage: str) -> None:
 
 
 _ST = ['file', 'mapping', 'demo', 'demo_file']
+from zverif.harness.c12 import h_program as _conn_program  # noqa: E402
+
 HARNESSES = [
     Harness('store_serial', h_store_serial,
             decides='store(oid, serial, ...) is accepted as-is iff serial is the committed revision (or the object is new), '
@@ -386,6 +388,15 @@ HARNESSES = [
                   'DemoStorage.tpc_*'],
             quick=dict(timeout=100, shards=shards(storage=['file', 'mapping', 'demo'])),
             thorough=dict(timeout=300, shards=shards(storage=['file', 'mapping', 'demo']))),
+    Harness('connection_failed_commit', _conn_program,
+            decides='connection level: after a commit refused with a conflict in the middle of storing (also when the data comes from '
+                    'savepoints) the connection shows the committed state again, so that the retry cannot commit values derived from the '
+                    'refused transaction (C12 program harness, shards starting with a modification)',
+            symbolic='step codes of programs over modify / add / savepoint / rollback / commit / abort / a conflicting commit by another connection',
+            bounds='program length 4, first step fixed per shard', oracle='connection state model (zverif/progs.py)',
+            code=['Connection._commit_savepoint/_store_objects/tpc_abort/_abort'],
+            quick=dict(timeout=200, shards=shards(n=[4], storage=['file'], first=['modify0', 'modify1'])),
+            thorough=dict(timeout=900, shards=shards(n=[4], storage=['file', 'mapping'], first=['modify0', 'modify1', 'savepoint', 'other0']))),
 ]
 
 MANIFEST = dict(
